@@ -27,7 +27,7 @@ class C09(Prop):
     id = "C09"
     level = "exploration"
     title = "Evaluation gives the same answer inside and outside a symbolic block"
-    campaigns = {"quick": [("main", 20000, 60)], "thorough": [("main", 300000, 1500)]}
+    campaigns = {"quick": [("main", 60000, 60)], "thorough": [("main", 1500000, 1800)]}
     chunk = 50
     rule = ("seeded queries and rules that use function predicates, Predicate subclasses (incl. HasType), "
             "infer(entity(T(f=e,..), ..)) heads and Add-conclusion rule trees, each under an / the / infer; one "
